@@ -113,6 +113,76 @@ def templates(rng) -> List[Tuple[str, Dict, str, str, str]]:
     return [t for t in out if t[3] is not None]
 
 
+# ---- the child-step translation itself: ISLa's match expressions vs the model's `XPath.childMTrees` ----------------
+
+XP_GRAMMARS = [ASSGN, NUMS, PAIRS, ROW]
+
+
+def isla_child_mtrees(g, V: str, T_: str, i: int):
+    """the match expressions ISLa builds for `forall <V> n in start: n.<T>[i] = "..."`: a set of
+    (children symbols of the match-expression tree, position of the bound child); None if rejected"""
+    from isla.language import parse_isla, QuantifiedFormula, FilterVisitor
+
+    text = f'forall {V} n in start: n.{T_}[{i}] = "x"'
+    try:
+        f = parse_isla(text, g)
+    except Exception as e:  # noqa
+        return ("rejected", type(e).__name__, str(e)[:80])
+    out = set()
+    qs = FilterVisitor(lambda x: isinstance(x, QuantifiedFormula) and x.bind_expression is not None).collect(f)
+    for qf in qs:
+        for tree, binds in qf.bind_expression.to_tree_prefix(V, g):
+            if tree.value != V or tree.children is None:
+                return ("unexpected-shape", str(tree))
+            syms = []
+            for ch in tree.children:
+                if ch.children:  # deeper than one level
+                    return ("unexpected-shape", str(tree))
+                syms.append(ch.value)
+            real = [pth for var, pth in binds.items() if not type(var).__name__.endswith("DummyVariable")]
+            if len(real) != 1 or len(real[0]) != 1:
+                return ("unexpected-binding", str(binds))
+            out.add((tuple(syms), real[0][0]))
+    return out
+
+
+def translation_cases(ctx: Ctx):
+    """for every nonterminal V, child type T and index i (incl. indices beyond the number of occurrences) of the fixed
+    grammars and of random grammars: ISLa's match expressions == model's childMTrees (as sets)"""
+    rng = ctx.rng
+    grammars = list(XP_GRAMMARS) + [G.gen_acyclic_grammar(rng, eps_prob=0.0, terminals=("a", "b", "0", "x", " ", ";")) for _ in range(3 if ctx.tier == "quick" else 40)]
+    for g in grammars:
+        c = G.canon(g)
+        cases = []
+        for V, alts in c.items():
+            kids = sorted({s for alt in alts for s in alt if s in c})
+            for T_ in kids:
+                mx = max(sum(1 for s in alt if s == T_) for alt in alts)
+                for i in range(1, min(mx, 12) + 2):
+                    cases.append((V, T_, i))
+        if len(cases) > 40:
+            cases = rng.sample(cases, 40)
+        reqs = [[Atom("c08"), Atom("childmtrees"), G.grammar_sexp(g), V, T_, i] for V, T_, i in cases]
+        if not reqs:
+            continue
+        answers = drive(reqs)
+        for (V, T_, i), a in zip(cases, answers):
+            ctx.evaluations += 1
+            ctx.count("translation", "child-step compared")
+            model = {(tuple(e), k) for e, k in a} if isinstance(a, list) else None
+            real_ = isla_child_mtrees(g, V, T_, i)
+            replay = {"grammar": g, "V": V, "T": T_, "i": i, "model": sorted(map(list, model)) if model is not None else str(a), "isla": sorted(map(list, real_)) if isinstance(real_, set) else list(real_)}
+            if isinstance(real_, tuple):
+                if real_[0] == "rejected" and model == set():
+                    ctx.count("translation", "no alternative has that many occurrences: rejected by ISLa, empty in the model")
+                    continue
+                ctx.violation(f"xpath-translation:{real_[0]}", f"{V}.{T_}[{i}]: ISLa {real_}, model {replay['model']}", replay)
+                continue
+            ctx.nontriv(("xpath-translation", json.dumps(g, sort_keys=True), V, T_, i))
+            if model != real_:
+                ctx.violation("xpath-translation:match-expressions-differ", f"{V}.{T_}[{i}]: ISLa builds {sorted(real_)}, the documented translation (XPath.childMTrees) gives {sorted(model or [])}", replay)
+
+
 def real(text, dts, grammar):
     from isla.evaluator import evaluate
     from isla.isla_predicates import STANDARD_STRUCTURAL_PREDICATES, STANDARD_SEMANTIC_PREDICATES
